@@ -2024,11 +2024,13 @@ impl<R: Reader, S: EvaluationStorage<R>> Evaluation<R, S> {
 
     fn evaluate_internal(&mut self) -> Result<EvaluationResult<R>> {
         while !self.end_of_expression() {
-            self.iteration += 1;
-            if let Some(max_iterations) = self.max_iterations
-                && self.iteration > max_iterations
-            {
-                return Err(Error::TooManyIterations);
+            if let Some(max_iterations) = self.max_iterations {
+                // Compare before counting so that the counter can never pass
+                // `max_iterations` and overflow.
+                if self.iteration >= max_iterations {
+                    return Err(Error::TooManyIterations);
+                }
+                self.iteration += 1;
             }
 
             let op_result = self.evaluate_one_operation()?;
